@@ -181,7 +181,40 @@ def _e1_derived(prop, rec):
     return bool(hit), "; ".join(hit) or f"variant {rec['variant']} agrees with the molfile description ({s!r})"
 
 
+def _e1_c12_derived(prop, rec):
+    from . import e1
+
+    n = rec["n"]
+    st = (tuple(rec["state"][0]), rec["state"][1])
+    vios = []
+    e1._c12_derived_inputs(n, st, vios, {"transitions": 0, "exec": 0})
+    hit = [v[1]["summary"] for v in vios if v[1].get("variant") == rec.get("variant")]
+    return bool(hit), "; ".join(hit) or "derived inputs are canonicalized faithfully"
+
+
+def _e1_sequence(prop, rec):
+    from . import e1
+
+    n = rec["n"]
+    a = (tuple(rec["state_a"][0]), rec["state_a"][1])
+    b = (tuple(rec["state_b"][0]), rec["state_b"][1])
+    sa = e1.pipeline(n, a)[2]
+    sb = e1.pipeline(n, b)[2]
+    return sa == sb or sb != rec["expect_b"], f"A -> {sa!r}, then B -> {sb!r} (B alone: {rec['expect_b']!r})"
+
+
+def _zoo_sequence(prop, rec):
+    from . import zoo
+
+    S = zoo.seeds("thorough")
+    sa, sb = zoo._zoo_seq_job((S[rec["seed_a"]], S[rec["seed_b"]], rec["seed_a"], rec["seed_b"]))
+    return sa == sb, f"{rec['seed_a']} -> {sa[:120]!r}; then {rec['seed_b']} -> {sb[:120]!r}"
+
+
 REPLAYERS = {
+    "zoo-sequence": _zoo_sequence,
+    "e1-sequence": _e1_sequence,
+    "e1-c12-derived": _e1_c12_derived,
     "e1-derived": _e1_derived,
     "e1-pair-differ": _pair_differ,
     "zoo": _zoo,
